@@ -26,6 +26,7 @@ import (
 	"context"
 	"encoding/json"
 	"fmt"
+	"log/slog"
 	"math"
 	"os"
 	"os/exec"
@@ -62,6 +63,9 @@ type c03Step struct {
 	// Crash: predicted contents after recovery; Recover: the same after a second crash
 	Must map[string][]dbExp `json:"must"`
 	May  map[string][]dbExp `json:"may"`
+	// Crash: a second crash, during recovery
+	Site2 string `json:"site2"`
+	Hit2  int    `json:"hit2"`
 }
 
 // c03Spec is what a child process is told to do.
@@ -515,11 +519,17 @@ func c03ExpFmt(c dbConc, e map[string][]dbExp) string {
 // c03Bounds checks lower ⊆ got ⊆ upper (upper = union of the alternatives of `upper1` and `upper2`), values included.
 // Returns a signature and message, "" if fine.
 func c03Bounds(c dbConc, got c03Contents, lower map[string][]dbExp, uppers ...map[string][]dbExp) (string, string) {
+	sig, msg, _, _ := c03BoundsX(c, got, lower, uppers...)
+	return sig, msg
+}
+
+// c03BoundsX is c03Bounds returning also the series and timestamp of the offending sample.
+func c03BoundsX(c dbConc, got c03Contents, lower map[string][]dbExp, uppers ...map[string][]dbExp) (string, string, string, int64) {
 	for name, l := range lower {
 		for _, e := range l {
 			g, ok := got[name][c.tm(e.T)]
 			if !ok {
-				return "acked-sample-lost", fmt.Sprintf("series %s: sample at t=%d (model %d, one of %v) was acknowledged before the crash and is gone", name, c.tm(e.T), e.T, e.Alts)
+				return "acked-sample-lost", fmt.Sprintf("series %s: sample at t=%d (model %d, one of %v) was acknowledged before the crash and is gone", name, c.tm(e.T), e.T, e.Alts), name, c.tm(e.T)
 			}
 			_ = g
 		}
@@ -542,13 +552,41 @@ func c03Bounds(c dbConc, got c03Contents, lower map[string][]dbExp, uppers ...ma
 			}
 			if !found {
 				if tsKnown {
-					return "altered-value", fmt.Sprintf("series %s: sample %v has a value that was never written at that timestamp", name, g)
+					return "altered-value", fmt.Sprintf("series %s: sample %v has a value that was never written at that timestamp", name, g), name, t
 				}
-				return "phantom-sample", fmt.Sprintf("series %s: sample %v is neither acknowledged nor part of the commit in flight (deleted, rejected, rolled back or never appended)", name, g)
+				return "phantom-sample", fmt.Sprintf("series %s: sample %v is neither acknowledged nor part of the commit in flight (deleted, rejected, rolled back or never appended)", name, g), name, t
 			}
 		}
 	}
-	return "", ""
+	return "", "", "", 0
+}
+
+// c03WasCommitted: sample g of series name was part of the acknowledged contents after some operation <= upto.
+func c03WasCommitted(c dbConc, w []c03Step, upto int, name string, g dbSample) bool {
+	for i := 1; i <= upto && i < len(w); i++ {
+		for _, e := range w[i].Exp[name] {
+			if c.tm(e.T) != g.T {
+				continue
+			}
+			for _, a := range e.Alts {
+				if c.matches(g, a) {
+					return true
+				}
+			}
+		}
+	}
+	return false
+}
+
+// c03NoBlockAbove: no persisted in-order block has MaxTime > t (Head.Init's minValidTime is at most t).
+func c03NoBlockAbove(db *tsdb.DB, t int64) bool {
+	for _, b := range db.Blocks() {
+		m := b.Meta()
+		if !m.Compaction.FromOutOfOrder() && m.MaxTime > t {
+			return false
+		}
+	}
+	return true
 }
 
 // c03Equal: got == exp exactly (with alternatives).
@@ -591,13 +629,43 @@ func c03ExpAfter(w []c03Step, i int) map[string][]dbExp {
 	return map[string][]dbExp{}
 }
 
+// c03LogWatch is a slog handler that remembers whether tsdb.Open repaired the WAL / WBL.
+type c03LogWatch struct {
+	mu   sync.Mutex
+	msgs []string
+}
+
+func (h *c03LogWatch) Enabled(context.Context, slog.Level) bool { return true }
+func (h *c03LogWatch) Handle(_ context.Context, r slog.Record) error {
+	if strings.Contains(r.Message, "repair") || strings.Contains(r.Message, "Repair") || strings.Contains(r.Message, "orrupt") {
+		h.mu.Lock()
+		h.msgs = append(h.msgs, r.Message)
+		h.mu.Unlock()
+	}
+	return nil
+}
+func (h *c03LogWatch) WithAttrs([]slog.Attr) slog.Handler { return h }
+func (h *c03LogWatch) WithGroup(string) slog.Handler      { return h }
+func (h *c03LogWatch) has(sub string) bool {
+	h.mu.Lock()
+	defer h.mu.Unlock()
+	for _, m := range h.msgs {
+		if strings.Contains(m, sub) {
+			return true
+		}
+	}
+	return false
+}
+
 // c03Verdict is called with the directory left by the crashed child(ren).
 func c03Verdict(w []c03Step, seed int64, dir string, run *c03Run, pt c03Point) (sig, msg string, recovered c03Contents) {
 	init := w[0]
 	conc := c03Conc(seed, init)
 	opts := c03Options(conc, init)
 	what := fmt.Sprintf("crash at %s [%s]; acked ops=%d, in flight=%d %s", pt, conc, run.acked, run.inflight, run.inflA)
-	db, err := tsdb.Open(dir, nil, nil, opts, nil)
+	repairLeft, _ := filepath.Glob(filepath.Join(dir, "wal", "*.repair"))
+	watch := &c03LogWatch{}
+	db, err := tsdb.Open(dir, slog.New(watch), nil, opts, nil)
 	if err != nil {
 		return "open-failed", fmt.Sprintf("%s: reopening the database failed: %v", what, err), nil
 	}
@@ -623,7 +691,31 @@ func c03Verdict(w []c03Step, seed int64, dir string, run *c03Run, pt c03Point) (
 			lower = next // a deletion in flight may be applied to some blocks / the head and not to others
 		}
 	}
-	if sig, msg := c03Bounds(conc, got, lower, uppers...); sig != "" {
+	if sig, msg, badSeries, badT := c03BoundsX(conc, got, lower, uppers...); sig != "" {
+		// narrow signatures of the known deviations (see Crash.tla CKF)
+		switch {
+		case sig == "phantom-sample" && c03WasCommitted(conc, w, run.acked, badSeries, got[badSeries][badT]) && c03NoBlockAbove(db, badT):
+			sig = "deleted-sample-replayed-from-wal"
+			msg += " (the sample was committed and later deleted by an acknowledged Delete; no in-order block reaches above its timestamp any more, so minValidTime does not keep the WAL replay from appending it again)"
+		case sig == "acked-sample-lost" && len(repairLeft) > 0:
+			sig = "repair-file-left:" + sig
+			msg += fmt.Sprintf(" (the WAL directory holds %s: an earlier WL.Repair was interrupted after renaming the damaged segment)", filepath.Base(repairLeft[0]))
+		case sig == "acked-sample-lost" && watch.has("Encountered WAL read error, attempting repair"):
+			// is the sample back after a clean restart (the WBL was not replayed by the open that repaired the WAL)?
+			db.Close()
+			closed = true
+			if db3, err3 := tsdb.Open(dir, nil, nil, opts, nil); err3 == nil {
+				db3.DisableCompactions()
+				got3, err3 := c03Query(db3)
+				db3.Close()
+				if err3 == nil {
+					if s3, _ := c03Bounds(conc, got3, lower, uppers...); s3 == "" {
+						sig = "wbl-skipped-after-wal-repair"
+						msg += " (this Open repaired a torn WAL record and returned without replaying the WBL; the sample is back after one more restart)"
+					}
+				}
+			}
+		}
 		return sig, fmt.Sprintf("%s: %s\n  recovered: %s\n  acknowledged: %s", what, msg, c03Fmt(got), c03ExpFmt(conc, acked)), got
 	}
 	// the recovered database accepts new writes and keeps them over a clean restart
@@ -752,6 +844,16 @@ func TestVerifC03Crash(t *testing.T) {
 			defer wg.Done()
 			defer func() { <-sem }()
 			cs := cases[ci]
+			if n := len(cs.W); n == 0 || cs.W[n-1].A != "End" {
+				// a workload prefix of crash behaviours only: no dry run, the model's crash points are executed directly
+				mu.Lock()
+				for _, cr := range cs.Crashes {
+					cr := cr
+					jobs = append(jobs, job{ci, c03Point{site: cr.Site, hit: cr.Hit, site2: cr.Site2, hit2: cr.Hit2, model: &cr}})
+				}
+				mu.Unlock()
+				return
+			}
 			sc := filepath.Join(root, fmt.Sprintf("c03-%d-dry", ci))
 			os.MkdirAll(sc, 0o777)
 			defer os.RemoveAll(sc)
@@ -828,7 +930,7 @@ func TestVerifC03Crash(t *testing.T) {
 			}
 			for _, cr := range cs.Crashes {
 				cr := cr
-				jobs = append(jobs, job{ci, c03Point{site: cr.Site, hit: cr.Hit, model: &cr}})
+				jobs = append(jobs, job{ci, c03Point{site: cr.Site, hit: cr.Hit, site2: cr.Site2, hit2: cr.Hit2, model: &cr}})
 			}
 			for k := 0; k < nrandom; k++ {
 				jobs = append(jobs, job{ci, c03Point{rnd: time.Duration(20+((int(verifh.Seed())*31+ci*17+k*53)%400)) * time.Millisecond}})
@@ -868,8 +970,26 @@ func TestVerifC03Crash(t *testing.T) {
 					return
 				}
 				nruns.Add(1)
-				if run.ended && j.pt.rnd == 0 {
+				if run.ended && j.pt.rnd == 0 && j.pt.site != "end-of-workload" {
 					unreached.Add(1) // the crash point was not reached (model drift or scheduling): still a kill after the last op
+				}
+				if j.pt.site2 != "" {
+					// second crash: a process that only opens the directory is killed during recovery
+					run2, err := c03RunChild(c03Spec{Mode: "open", Dir: dir, W: cs.W, Seed: seedOf(j.ci), KillSite: j.pt.site2, KillHit: j.pt.hit2}, sc, "c2", 0)
+					if err != nil {
+						infra.Store(err.Error())
+						return
+					}
+					nruns.Add(1)
+					if run2.errLine != "" {
+						verifh.Violation("open-failed", fmt.Sprintf("workload %d: crash at %s: reopening the database failed in the recovering process: %s", j.ci, j.pt, run2.errLine),
+							map[string]any{"workload": cs.W, "crash": j.pt.String(), "seed": seedOf(j.ci)})
+						os.RemoveAll(sc)
+						continue
+					}
+					if run2.killed == "opened" {
+						unreached.Add(1)
+					}
 				}
 				sig, msg, got := c03Verdict(cs.W, seedOf(j.ci), dir, run, j.pt)
 				mu.Lock()
@@ -882,7 +1002,7 @@ func TestVerifC03Crash(t *testing.T) {
 				} else if j.pt.model != nil && !run.ended && got != nil {
 					// the model's own prediction for this crash point (stronger than the property: drift only)
 					conc := c03Conc(seedOf(j.ci), cs.W[0])
-					if s2, m2 := c03Bounds(conc, got, j.pt.model.Must, j.pt.model.Must, j.pt.model.May); s2 != "" {
+					if s2, m2 := c03Bounds(conc, got, j.pt.model.Exp, j.pt.model.Exp); s2 != "" && !(run.ended && j.pt.site != "end-of-workload") {
 						ndrift.Add(1)
 						verifh.Drift(fmt.Sprintf("workload %d crash %s: recovered contents differ from the model's prediction for this crash point (%s): %s", j.ci, j.pt, s2, m2))
 					}
